@@ -293,6 +293,8 @@ fn rowerr_event(tr: &mut Trace, c: &Conc, r: &mut Rng, t: i32) {
     let hole = 1 + r.below(n - 1);      // 1-based, never the first (so that the table has a typed first row)
     let shapes = distinct_shapes(r, t, n, false);
     let built: Vec<Shape> = shapes.iter().map(|a| build(c, a)).collect();
+    // (the constructors close and orient rings: a shape is recognised by what was BUILT, not by what went in)
+    let shapes: Vec<AShape> = built.iter().map(|s| abstract_shape(c, s)).collect();
     let (shp, shx, dbf) = (LogDest::new(), LogDest::new(), LogDest::new());
     let res = guarded(|| {
         {
